@@ -26,6 +26,23 @@ enum Cfg {
     None,
     All,
     Custom(Vec<String>),
+    /// `with_deserialize_headers::<RecRow>()`: `Some(i)` = the record type asks for a struct with the fields
+    /// `FIELD_SETS[i]`, `None` = it asks for something else (no field list)
+    Wdh(Option<usize>),
+}
+
+/// the field lists the recording record type can present to `deserialize_struct`
+const FIELD_SETS: [&[&str]; 4] = [&["a", "b"], &["id", "name", "flag", "score", "note"], &["b", "a", "id"], &[]];
+
+impl Cfg {
+    /// the configuration a `with_deserialize_headers` builder must be equivalent to (the property as stated)
+    fn normalized(&self) -> Cfg {
+        match self {
+            Cfg::Wdh(Some(i)) => Cfg::Custom(FIELD_SETS[*i].iter().map(|s| s.to_string()).collect()),
+            Cfg::Wdh(None) => Cfg::Custom(vec![]),
+            c => c.clone(),
+        }
+    }
 }
 
 /// one consumption step, performed on `&mut it` (adaptors through `by_ref()`)
@@ -181,6 +198,15 @@ impl Case {
                 }
                 s
             }
+            Cfg::Wdh(None) => "W-".to_string(),
+            Cfg::Wdh(Some(i)) => {
+                let mut s = String::from("W");
+                for n in FIELD_SETS[*i] {
+                    s.push('/');
+                    s.push_str(&hex(n.as_bytes()));
+                }
+                s
+            }
         };
         format!("de {rg} {cfg} {} {} {}", if self.map { "map" } else { "seq" }, ops_wire(&self.ops), self.sched.join(","))
     }
@@ -197,6 +223,11 @@ impl Case {
         let cfg = match p[2] {
             "N" => Cfg::None,
             "A" => Cfg::All,
+            "W-" => Cfg::Wdh(None),
+            c if c.starts_with('W') => {
+                let names: Vec<String> = c.split('/').skip(1).map(ustr).collect();
+                Cfg::Wdh(Some(FIELD_SETS.iter().position(|f| f.iter().map(|x| x.to_string()).collect::<Vec<_>>() == names).expect("field set")))
+            }
             c => Cfg::Custom(c.split('/').skip(1).map(ustr).collect()),
         };
         Case { dims, cells, cfg, map: p[3] == "map", ops: ops_parse(p[4]), sched: p[5].split(',').map(|x| x.to_string()).collect() }
@@ -267,6 +298,7 @@ thread_local! {
     static ROW_METHOD: RefCell<u8> = const { RefCell::new(0) };
     static LOG: RefCell<Vec<String>> = const { RefCell::new(vec![]) };
     static HEAD: RefCell<String> = const { RefCell::new(String::new()) };
+    static FIELDS_IDX: RefCell<usize> = const { RefCell::new(0) };
 }
 
 const TARGETS: [&str; 29] = [
@@ -458,7 +490,7 @@ impl<'de> Deserialize<'de> for RecRow {
             5 => d.deserialize_option(RowVisitor),
             6 => d.deserialize_ignored_any(RowVisitor),
             10 => d.deserialize_map(RowVisitor),
-            _ => d.deserialize_struct("S", &["a", "b"], RowVisitor),
+            _ => d.deserialize_struct("S", FIELD_SETS[FIELDS_IDX.with(|f| *f.borrow())], RowVisitor),
         }
     }
 }
@@ -494,6 +526,7 @@ fn run_impl(case: &Case, variant: u64) -> String {
             1 => RangeDeserializerBuilder::new().from_range::<Data, RecRow>(&range),
             _ => RangeDeserializerBuilder::new().has_headers(true).from_range::<Data, RecRow>(&range),
         },
+        Cfg::Wdh(_) => RangeDeserializerBuilder::with_deserialize_headers::<RecRow>().from_range::<Data, RecRow>(&range),
         Cfg::Custom(names) => {
             if variant / 7 % 2 == 0 {
                 RangeDeserializerBuilder::with_headers(names).from_range::<Data, RecRow>(&range)
@@ -509,7 +542,27 @@ fn run_impl(case: &Case, variant: u64) -> String {
 /// per-case settings of the recording visitors
 fn setup_case(case: &Case, variant: u64) {
     SCHED.with(|s| *s.borrow_mut() = case.sched.clone());
-    let method: u8 = if case.map { 10 + (variant % 2) as u8 } else { (variant % 7) as u8 };
+    let method: u8 = match &case.cfg {
+        Cfg::Wdh(Some(i)) => {
+            FIELDS_IDX.with(|f| *f.borrow_mut() = *i);
+            11 // the record type is a struct: the same `deserialize_struct` call probes the fields and reads the rows
+        }
+        Cfg::Wdh(None) => {
+            if case.map {
+                10
+            } else {
+                (variant % 7) as u8
+            }
+        }
+        _ => {
+            FIELDS_IDX.with(|f| *f.borrow_mut() = 0);
+            if case.map {
+                10 + (variant % 2) as u8
+            } else {
+                (variant % 7) as u8
+            }
+        }
+    };
     ROW_METHOD.with(|m| *m.borrow_mut() = method);
 }
 
@@ -677,7 +730,8 @@ fn o_convert(d: &Data, t: &str, pos: (u32, u32)) -> String {
 }
 
 /// header configuration resolved against the first row: Err(new fails) or (selected columns, header strings)
-fn o_resolve(case: &Case) -> Result<(Vec<usize>, Option<Vec<String>>, usize), String> {
+fn o_resolve(case0: &Case) -> Result<(Vec<usize>, Option<Vec<String>>, usize), String> {
+    let case = &Case { cfg: case0.cfg.normalized(), ..case0.clone() };
     let (h, w) = (case.h(), case.w());
     if case.cfg == Cfg::None {
         return Ok(((0..w).collect(), None, 0));
@@ -1069,7 +1123,8 @@ fn first_cell_error(case: &Case, cols: &[usize], j: usize) -> Option<String> {
 }
 
 /// expectations for serde's own visitors, computed from the case description
-fn derive_family(case: &Case, rep: &mut Report, text: &str) {
+fn derive_family(case0: &Case, rep: &mut Report, text: &str) {
+    let case = &Case { cfg: case0.cfg.normalized(), ..case0.clone() };
     let range = case.range();
     let resolved = o_resolve(case);
     let builder_err = resolved.as_ref().err().cloned();
@@ -1079,6 +1134,7 @@ fn derive_family(case: &Case, rep: &mut Report, text: &str) {
                 Cfg::None => RangeDeserializerBuilder::new().has_headers(false).from_range::<Data, $t>(&range),
                 Cfg::All => range.deserialize::<$t>(),
                 Cfg::Custom(names) => RangeDeserializerBuilder::with_headers(names).from_range::<Data, $t>(&range),
+                Cfg::Wdh(_) => unreachable!(),
             })
         };
     }
@@ -1199,7 +1255,7 @@ fn derive_family(case: &Case, rep: &mut Report, text: &str) {
     let rec_built = guarded(|| match &case.cfg {
         Cfg::None => RangeDeserializerBuilder::new().has_headers(false).from_range::<Data, Rec>(&range),
         Cfg::All => range.deserialize::<Rec>(),
-        Cfg::Custom(_) => RangeDeserializerBuilder::with_deserialize_headers::<Rec>().from_range::<Data, Rec>(&range),
+        Cfg::Custom(_) | Cfg::Wdh(_) => RangeDeserializerBuilder::with_deserialize_headers::<Rec>().from_range::<Data, Rec>(&range),
     });
     // with `with_deserialize_headers` the requested names are the struct's field names
     let rec_case = match &case.cfg {
@@ -1346,6 +1402,197 @@ fn convert_case(d: &Data, t: &str, pos: (u32, u32), drv: &mut Driver, rep: &mut 
     }
     if model != expect && imp == expect {
         rep.fail("model_vs_spec", &sig, &text, &imp, &model, &expect);
+    }
+}
+
+/// family `data`: `Data` (and `Option<Data>`) as the deserialization target of a cell — impl vs model
+/// (`dataOfCell`, `optDataOfCell`) vs the documented table (dates come back as floats, ISO texts as strings,
+/// error cells fail)
+fn data_case(d: &Data, pos: (u32, u32), drv: &mut Driver, rep: &mut Report) {
+    let text = format!("data {} {},{}", cell_wire(d), pos.0, pos.1);
+    let one = match guarded(|| Data::deserialize(d.to_cell_deserializer(pos))) {
+        Err(_) => "panic".to_string(),
+        Ok(Ok(x)) => cell_wire(&x),
+        Ok(Err(e)) => err_canon(&e),
+    };
+    let two = match guarded(|| Option::<Data>::deserialize(d.to_cell_deserializer(pos))) {
+        Err(_) => "panic".to_string(),
+        Ok(Ok(Some(x))) => format!("some+{}", cell_wire(&x)),
+        Ok(Ok(None)) => "none".to_string(),
+        Ok(Err(e)) => err_canon(&e),
+    };
+    let imp = format!("{one} {two}");
+    let model = drv.ask(&text);
+    let expect = match d {
+        Data::Error(e) => {
+            let c = format!("!CE:{}:{}:{}", kind_index(e), pos.0, pos.1);
+            format!("{c} {c}")
+        }
+        Data::Empty => "_ none".to_string(),
+        x => format!("{} some+{}", cell_wire(&o_data(x)), cell_wire(&o_data(x))),
+    };
+    rep.case(&text, !matches!(d, Data::Empty));
+    rep.count("data.cells");
+    if imp != expect {
+        rep.fail("impl_vs_spec", "data:roundtrip", &text, &imp, &model, &expect);
+    }
+    if imp != model {
+        rep.fail("impl_vs_model", "data:roundtrip", &text, &imp, &model, &expect);
+    }
+    if model != expect && imp == expect {
+        rep.fail("model_vs_spec", "data:roundtrip", &text, &imp, &model, &expect);
+    }
+}
+
+/// a deserializer that answers every request with one fixed `visit_*` call (canonical value text)
+struct ValDe(String);
+
+impl<'de> Deserializer<'de> for ValDe {
+    type Error = DeError;
+    fn deserialize_any<V: Visitor<'de>>(self, v: V) -> Result<V::Value, DeError> {
+        let w = self.0.as_str();
+        if w == "unit" {
+            return v.visit_unit();
+        }
+        if w == "none" {
+            return v.visit_none();
+        }
+        if w == "nt" {
+            return v.visit_newtype_struct(ValDe("unit".into()));
+        }
+        let (k, x) = w.split_once(':').expect("value text");
+        match k {
+            "b" => v.visit_bool(x == "1"),
+            "i8" => v.visit_i8(x.parse().unwrap()),
+            "i16" => v.visit_i16(x.parse().unwrap()),
+            "i32" => v.visit_i32(x.parse().unwrap()),
+            "i64" => v.visit_i64(x.parse().unwrap()),
+            "u8" => v.visit_u8(x.parse().unwrap()),
+            "u16" => v.visit_u16(x.parse().unwrap()),
+            "u32" => v.visit_u32(x.parse().unwrap()),
+            "u64" => v.visit_u64(x.parse().unwrap()),
+            "f32" => v.visit_f32(f32::from_bits(u32::from_str_radix(x, 16).unwrap())),
+            "f64" => v.visit_f64(f64::from_bits(u64::from_str_radix(x, 16).unwrap())),
+            "s" => v.visit_str(&ustr(x)),
+            "S" => v.visit_string(ustr(x)),
+            "sb" => v.visit_borrowed_str(Box::leak(ustr(x).into_boxed_str())),
+            "c" => v.visit_char(char::from_u32(x.parse().unwrap()).unwrap()),
+            "y" => v.visit_bytes(&unhex(x)),
+            other => panic!("bad value kind {other}"),
+        }
+    }
+    serde::forward_to_deserialize_any! {
+        bool i8 i16 i32 i64 u8 u16 u32 u64 f32 f64 char str string bytes byte_buf option unit unit_struct
+        newtype_struct seq tuple tuple_struct map struct enum identifier ignored_any
+    }
+}
+
+/// family `visit`: `DataVisitor` called directly with one `visit_*` — impl vs model (`dataVisitor`) vs the table
+fn visit_case(val: &str, drv: &mut Driver, rep: &mut Report) {
+    let text = format!("visit {val}");
+    let imp = match guarded(|| Data::deserialize(ValDe(val.to_string()))) {
+        Err(_) => "panic".to_string(),
+        Ok(Ok(x)) => cell_wire(&x),
+        Ok(Err(_)) => "invalid".to_string(),
+    };
+    // the model's `Val` has one string form: `S:`/`sb:` (owned / borrowed string) are `s:` on the wire
+    let mval = if let Some(x) = val.strip_prefix("S:").or(val.strip_prefix("sb:")) { format!("s:{x}") } else { val.to_string() };
+    let model = drv.ask(&format!("visit {mval}"));
+    let expect = if val == "unit" || val == "none" {
+        "_".to_string()
+    } else if val == "nt" {
+        "invalid".to_string()
+    } else {
+        let (k, x) = val.split_once(':').unwrap();
+        match k {
+            "b" => format!("B:{x}"),
+            "i8" | "i16" | "i32" | "i64" => format!("I:{x}"),
+            "u8" | "u16" | "u32" | "u64" => format!("I:{}", x.parse::<u64>().unwrap() as i64),
+            "f32" => format!("F:{:016x}", (f32::from_bits(u32::from_str_radix(x, 16).unwrap()) as f64).to_bits()),
+            "f64" => format!("F:{x}"),
+            "s" | "S" | "sb" => format!("S:{x}"),
+            "c" => format!("S:{}", hex(char::from_u32(x.parse().unwrap()).unwrap().to_string().as_bytes())),
+            _ => "invalid".to_string(),
+        }
+    };
+    rep.case(&text, true);
+    rep.count("visit.calls");
+    let sig = format!("visit:{}", val.split(':').next().unwrap());
+    if imp != expect {
+        rep.fail("impl_vs_spec", &sig, &text, &imp, &model, &expect);
+    }
+    if imp != model {
+        rep.fail("impl_vs_model", &sig, &text, &imp, &model, &expect);
+    }
+    if model != expect && imp == expect {
+        rep.fail("model_vs_spec", &sig, &text, &imp, &model, &expect);
+    }
+}
+
+fn gen_visit(rng: &mut Rng) -> String {
+    match rng.below(14) {
+        0 => format!("b:{}", rng.below(2)),
+        1 => format!("i8:{}", rng.next() as i8),
+        2 => format!("i16:{}", rng.next() as i16),
+        3 => format!("i32:{}", rng.next() as i32),
+        4 => format!("i64:{}", gen_int(rng)),
+        5 => format!("u8:{}", rng.next() as u8),
+        6 => format!("u16:{}", rng.next() as u16),
+        7 => format!("u32:{}", rng.next() as u32),
+        8 => format!("u64:{}", *rng.pick(&[0u64, 1, i64::MAX as u64, i64::MAX as u64 + 1, u64::MAX, u64::MAX - 1]).max(&(rng.next() >> rng.below(64)))),
+        9 => {
+            let b = rng.next() as u32;
+            // NaN payloads of the widening are not modelled: the canonical quiet NaN only
+            let b = if f32::from_bits(b).is_nan() { 0x7FC00000 } else { b };
+            format!("f32:{b:08x}")
+        }
+        10 => format!("f64:{:016x}", gen_float(rng).to_bits()),
+        11 => format!("{}:{}", rng.pick(&["s", "S", "sb"]), hex(rng.pick(&STRING_POOL).as_bytes())),
+        12 => format!("c:{}", *rng.pick(&['a', 'é', ' ', '\u{1F600}', '0']) as u32),
+        _ => rng.pick(&["unit", "none", "nt", "y:6162", "y:-"]).to_string(),
+    }
+}
+
+/// the four i64/f64 helpers in the canonical text of the driver's `helper` reply
+fn helper_model_case(d: &Data, pos: (u32, u32), drv: &mut Driver, rep: &mut Report) {
+    let f64c = |v: f64| if v.is_nan() { "nan".to_string() } else { format!("{:016x}", v.to_bits()) };
+    let dz = |r: Result<Result<String, DeError>, String>| match r {
+        Err(_) => "panic".to_string(),
+        Ok(Ok(s)) => s,
+        Ok(Err(e)) => err_canon(&e),
+    };
+    let a = dz(guarded(|| calamine::deserialize_as_i64_or_none(d.to_cell_deserializer(pos)).map(|o| o.map_or("none".into(), |v| format!("some:{v}")))));
+    let b = dz(guarded(|| {
+        calamine::deserialize_as_i64_or_string(d.to_cell_deserializer(pos)).map(|o| match o {
+            Ok(v) => format!("ok:{v}"),
+            Err(t) => format!("err:{}", hex(t.as_bytes())),
+        })
+    }));
+    let c = dz(guarded(|| calamine::deserialize_as_f64_or_none(d.to_cell_deserializer(pos)).map(|o| o.map_or("none".into(), |v| format!("some:{}", f64c(v))))));
+    let e = dz(guarded(|| {
+        calamine::deserialize_as_f64_or_string(d.to_cell_deserializer(pos)).map(|o| match o {
+            Ok(v) => format!("ok:{}", f64c(v)),
+            Err(t) => format!("err:{}", hex(t.as_bytes())),
+        })
+    }));
+    let imp = format!("{a} {b} {c} {e}");
+    // what the model takes as parameters (its DataConv.Std): float text, atoi_simd, fast_float2 — measured on the real accessors
+    let mut ents: Vec<String> = vec![];
+    match d {
+        Data::Float(v) => ents.push(format!("f{:016x}={}", v.to_bits(), hex(v.to_string().as_bytes()))),
+        Data::DateTime(v) => ents.push(format!("f{:016x}={}", v.as_f64().to_bits(), hex(v.as_f64().to_string().as_bytes()))),
+        Data::String(s) | Data::DateTimeIso(s) | Data::DurationIso(s) => {
+            let probe = Data::String(s.clone());
+            ents.push(format!("a{}={}", hex(s.as_bytes()), probe.as_i64().map_or("x".to_string(), |v| v.to_string())));
+            ents.push(format!("g{}={}", hex(s.as_bytes()), probe.as_f64().map_or("x".to_string(), |v| format!("{:016x}", v.to_bits()))));
+        }
+        _ => {}
+    }
+    let text = format!("helper {} {},{}", cell_wire(d), pos.0, pos.1);
+    let model = drv.ask(&format!("{text} {}", if ents.is_empty() { "-".to_string() } else { ents.join(";") }));
+    rep.count("helpers.model");
+    if imp != model {
+        rep.fail("impl_vs_model", "helpers:i64_f64", &text, &imp, &model, "");
     }
 }
 
@@ -1634,7 +1881,28 @@ fn gen_case(rng: &mut Rng) -> Case {
     } else {
         (0..rng.range(1, 4)).map(|_| rng.pick(&TARGETS).to_string()).collect()
     };
-    Case { dims, cells, cfg, map: rng.chance(1, 2), ops, sched }
+    let mut map = rng.chance(1, 2);
+    let mut cfg = cfg;
+    if rng.chance(1, 10) {
+        // with_deserialize_headers::<RecRow>(): a struct record type (fields from FIELD_SETS) or not a struct
+        if rng.chance(3, 4) {
+            let i = rng.below(FIELD_SETS.len() as u64) as usize;
+            cfg = Cfg::Wdh(Some(i));
+            map = true;
+            if let Some((_, _, _, w)) = dims {
+                let fs = FIELD_SETS[i];
+                for j in 0..w {
+                    if !fs.is_empty() && rng.chance(2, 3) {
+                        let nm = fs[rng.below(fs.len() as u64) as usize];
+                        cells[j] = Data::String(pad(rng, nm));
+                    }
+                }
+            }
+        } else {
+            cfg = Cfg::Wdh(None);
+        }
+    }
+    Case { dims, cells, cfg, map, ops, sched }
 }
 
 /// wide ranges: 65..300 columns (and the boundary widths), header names from a small pool so that many
@@ -1696,7 +1964,7 @@ fn gen_wide_case(rng: &mut Rng) -> Case {
 fn gen_reuse_sequence(rng: &mut Rng) -> Vec<Case> {
     let mut first = loop {
         let c = gen_case(rng);
-        if c.dims.is_some() && c.h() >= 2 {
+        if c.dims.is_some() && c.h() >= 2 && !matches!(c.cfg, Cfg::Wdh(_)) {
             break c;
         }
     };
@@ -2004,7 +2272,7 @@ fn main() {
          failure + the error) and size_hint before/after every step; compared impl vs Lean model vs independent \
          oracle. Family derive: the same ranges through Vec<Data>, HashMap<String,Data>, (String,Option<f64>,bool) and a derived \
          struct with Option fields (with_deserialize_headers) against an expectation computed from the description. Every 64th random case is a wide range (63..300 columns, header names from a pool of 2-8 names with random padding => many duplicates after trimming, custom selections naming them, data cell = 1000*row+column). Family reuse: ONE builder value (with_headers / new().has_headers / with_deserialize_headers::<Rec>, also a clone taken before first use) deserializes 2-3 ranges in sequence whose header rows are re-padded (equal after trimming), identical, permuted or different; every range is compared with model and oracle evaluated per range (the builder is pure configuration: the model has no builder state) and, for the derived struct, with a fresh builder. Family convert: \
-         every pool cell x every target, plus a directed stream of f32/f64 rounding midpoints (Int cells beyond 2^53 and decimal strings on / one unit next to the midpoint of adjacent f32 or f64 values; single correctly-rounded conversion expected: Rust `as f32`/`as f64` and str::parse::<f32|f64> in the oracle, intToF32/intToF64 round-to-nearest-even in the Lean model, string parsing through the model's Std parameter). Family helpers: the 12 deserialize_as_*_or_none/_or_string functions on pool and random cells (error cell => CellError at its position, else the accessor applied to the rebuilt Data). Non-trivial = a non-empty range with at least one data row; distinct by case text",
+         every pool cell x every target, plus a directed stream of f32/f64 rounding midpoints (Int cells beyond 2^53 and decimal strings on / one unit next to the midpoint of adjacent f32 or f64 values; single correctly-rounded conversion expected: Rust `as f32`/`as f64` and str::parse::<f32|f64> in the oracle, intToF32/intToF64 round-to-nearest-even in the Lean model, string parsing through the model's Std parameter). Family data / visit: Data and Option<Data> as the target of every pool / random cell (model dataOfCell, optDataOfCell), and DataVisitor called directly with single visit_* calls incl. u64 above i64::MAX, f32, char, bytes, newtype (model dataVisitor). with_deserialize_headers::<R>() for the recording record type R presenting one of 4 field lists to deserialize_struct, or not a struct (1 random case in 10; model withDeserializeHeaders = Headers.custom of the fields). Family helpers: the four i64/f64 helpers also against the model (asI64OrNone … with DataConv.viewData; float text, atoi_simd and fast_float2 results passed as its Std parameter); the 12 deserialize_as_*_or_none/_or_string functions on pool and random cells (error cell => CellError at its position, else the accessor applied to the rebuilt Data). Non-trivial = a non-empty range with at least one data row; distinct by case text",
     );
     rep.notes.push("Rust std f64::to_string / str::parse::<f64|f32> are measured on the real std for the cells of each case and passed to the model as its `Std` parameter (theorems hold for every Std)".into());
     rep.notes.push("serde and serde_derive visitors are not modelled: the model describes the event stream handed to any visitor; derived types are exercised as an implementation-level oracle".into());
@@ -2015,6 +2283,15 @@ fn main() {
             let p: Vec<&str> = inp.split_whitespace().collect();
             let pos: Vec<u32> = p[3].split(',').map(|x| x.parse().unwrap()).collect();
             convert_case(&cell_parse(p[1]), p[2], (pos[0], pos[1]), &mut drv, &mut rep);
+        } else if inp.starts_with("data ") || inp.starts_with("helper ") || inp.starts_with("helpers ") {
+            let p: Vec<&str> = inp.split_whitespace().collect();
+            let pos: Vec<u32> = p[2].split(',').map(|x| x.parse().unwrap()).collect();
+            let d = cell_parse(p[1]);
+            data_case(&d, (pos[0], pos[1]), &mut drv, &mut rep);
+            helpers_case(&d, (pos[0], pos[1]), &mut rep);
+            helper_model_case(&d, (pos[0], pos[1]), &mut drv, &mut rep);
+        } else if let Some(v) = inp.strip_prefix("visit ") {
+            visit_case(v.trim(), &mut drv, &mut rep);
         } else if let Some(rest) = inp.strip_prefix("reuse|") {
             let seq: Vec<Case> = rest.split('|').map(Case::parse).collect();
             reuse_family(&seq, 0, &mut drv, &mut rep);
@@ -2064,6 +2341,8 @@ fn main() {
             Cfg::None => "cfg.none",
             Cfg::All => "cfg.all",
             Cfg::Custom(_) => "cfg.custom",
+            Cfg::Wdh(Some(_)) => "cfg.with_deserialize_headers.struct",
+            Cfg::Wdh(None) => "cfg.with_deserialize_headers.not_a_struct",
         });
         rep.count(if case.map { "shape.map" } else { "shape.seq" });
         rep.count(&format!("rows.{}", case.h()));
@@ -2153,12 +2432,29 @@ fn main() {
         }
         for d in &pool {
             helpers_case(d, (7, 9), &mut rep);
+            helper_model_case(d, (7, 9), &mut drv, &mut rep);
+            data_case(d, (7, 9), &mut drv, &mut rep);
         }
         pool.push(Data::DateTimeIso("2021-03-04T05:06:07".into()));
         pool.push(Data::DurationIso("PT1H2M".into()));
         for _ in 0..args.count(2_000, 100_000) {
             let d = gen_cell(&mut rng);
-            helpers_case(&d, (rng.next() as u32, rng.next() as u32), &mut rep);
+            let pos = (rng.next() as u32, rng.next() as u32);
+            helpers_case(&d, pos, &mut rep);
+            helper_model_case(&d, pos, &mut drv, &mut rep);
+            data_case(&d, pos, &mut drv, &mut rep);
+        }
+        // `DataVisitor` call by call
+        for v in [
+            "b:0", "b:1", "i8:-128", "i64:-9223372036854775808", "u8:255", "u32:4294967295", "u64:9223372036854775807",
+            "u64:9223372036854775808", "u64:18446744073709551615", "f32:3fc00000", "f32:00000001", "f32:ff800000", "f32:7fc00000",
+            "f32:80000000", "f32:7f7fffff", "f64:7ff8000000000000", "s:-", "S:61", "sb:c3a9", "c:233", "c:128512", "y:6162", "unit", "none", "nt",
+        ] {
+            visit_case(v, &mut drv, &mut rep);
+        }
+        for _ in 0..args.count(2_000, 200_000) {
+            let v = gen_visit(&mut rng);
+            visit_case(&v, &mut drv, &mut rep);
         }
         // directed: midpoints of adjacent f32 / f64 values (single correctly-rounded conversion expected)
         for _ in 0..args.count(3_000, 300_000) {
